@@ -96,12 +96,22 @@ def cstaddlist(old, v):
     return [old, v]
 
 
+def safekey(n):
+    """docs/syntax.rst: a name that collides with an attribute or method of dict gets an underscore appended"""
+    while n in _DICT_ATTRS:
+        n += '_'
+    return n
+
+
+_DICT_ATTRS = frozenset(vars(dict))
+
+
 def names_of(e, single, lst):
     if isinstance(e, Named):
-        single.add(e.n)
+        single.add(safekey(e.n))
         names_of(e.e, single, lst)
     elif isinstance(e, NamedList):
-        lst.add(e.n)
+        lst.add(safekey(e.n))
         names_of(e.e, single, lst)
     elif isinstance(e, Seq):
         for i in e.items:
@@ -467,13 +477,16 @@ class Ref:
                 self.nonw.add('name-over-valueless')
             if len(st.elems) != mark + 1 or self.vl != vl0:
                 self.triggers.add('named-not-single')
-            prev = st.ast.get(e.n)
+            key = safekey(e.n)
+            if key != e.n:
+                self.features.add('NameRenamedAsDictAttribute')
+            prev = st.ast.get(key)
             if prev is not None and prev != [] and (isopen(prev) or isopen(v)):
                 self.nonw.add('rebind-open-list')
             if isinstance(e, Named):
-                st.ast[e.n] = cstadd(st.ast.get(e.n), v)
+                st.ast[key] = cstadd(st.ast.get(key), v)
             else:
-                st.ast[e.n] = cstaddlist(st.ast.get(e.n), v)
+                st.ast[key] = cstaddlist(st.ast.get(key), v)
             return end
         if isinstance(e, (Over, OverList)):
             mark = len(st.elems)
